@@ -63,36 +63,45 @@ Proof. intros fuel T exts main o s HT Hm E. exact (run_main_reqs T exts HT fuel 
 
 (* ------------------------------------------------------------------ once *)
 
-(* Accounting, without any hypothesis: every start of a module body seen in the trace ended in exactly one
-   of four ways; at most ONE of them is a completed run that was not a re-entry of a body still in progress. *)
+(* Every start of a module body seen in the trace ended by completing or by failing, and at most ONE start of
+   a module completed - for every module tree (cyclic ones included), every main program, every fuel. *)
 Theorem C14_once_accounting : forall fuel (T : tree) exts main o s n,
   run_main fuel T exts main = (o, s) ->
-  tr_starts n (trace s) = get n (done_nr s) + get n (done_r s) + get n (fail_nr s) + get n (fail_r s)
-  /\ tr_dones n (trace s) = get n (done_nr s) + get n (done_r s)
-  /\ get n (done_nr s) <= 1.
+  tr_starts n (trace s) = get n (dones s) + get n (fails s)
+  /\ tr_dones n (trace s) = get n (dones s)
+  /\ get n (dones s) <= 1.
 Proof. exact once_accounting. Qed.
 
-(* The property, guarded by acyclicity of the module graph (decidable: a rank certificate checked by
-   tree_ranked): a module body completes at most once, it is started at most once more than it failed,
-   and when it never fails it is started at most once - under any number of imports, aliases, spellings. *)
-Theorem C14_once : forall fuel (T : tree) exts (rank : name -> nat) main o s n,
-  tree_ranked rank T = true -> run_main fuel T exts main = (o, s) ->
-  tr_starts n (trace s) <= 1 + get n (fail_nr s) /\ tr_dones n (trace s) <= 1
-  /\ (get n (fail_nr s) = 0 -> tr_starts n (trace s) <= 1).
-Proof. exact once_acyclic. Qed.
+(* The property, without any guard: a module body completes at most once, it is started at most once more than
+   it failed, and when it never fails it is started at most once - under any number of imports, aliases and
+   spellings, in any module graph: an import cycle is an error, a body in progress is never entered again. *)
+Theorem C14_once : forall fuel (T : tree) exts main o s n,
+  run_main fuel T exts main = (o, s) ->
+  tr_starts n (trace s) <= 1 + get n (fails s) /\ tr_dones n (trace s) <= 1
+  /\ (get n (fails s) = 0 -> tr_starts n (trace s) <= 1).
+Proof. exact once. Qed.
 
-(* All importers get the same module object: whenever the body of n completed at most once, every successful
-   import of n in the evaluation returned the same object ... *)
+(* All importers get the same module object: every successful import of n in the evaluation returned the
+   same object. *)
 Theorem C14_same_object : forall fuel (T : tree) exts main o s n id1 id2,
-  run_main fuel T exts main = (o, s) -> tr_dones n (trace s) <= 1 ->
+  run_main fuel T exts main = (o, s) ->
   In (n, id1) (results s) -> In (n, id2) (results s) -> id1 = id2.
 Proof. exact same_object. Qed.
 
-(* ... which is always the case in an acyclic module graph. *)
-Theorem C14_same_object_guarded : forall fuel (T : tree) exts (rank : name -> nat) main o s n id1 id2,
-  tree_ranked rank T = true -> run_main fuel T exts main = (o, s) ->
-  In (n, id1) (results s) -> In (n, id2) (results s) -> id1 = id2.
-Proof. exact same_object_acyclic. Qed.
+(* In an acyclic module graph (decidable: a rank certificate checked by tree_ranked) no import is ever rejected
+   as a cycle. *)
+Theorem C14_acyclic_no_cycle_error : forall fuel (T : tree) exts (rank : name -> nat) main o s n,
+  tree_ranked rank T = true -> run_main fuel T exts main = (o, s) -> get n (cycles s) = 0.
+Proof. intros fuel T exts rank main o s n HT E. exact (run_main_noreent T exts rank HT fuel main o s E n). Qed.
+
+(* What a from-import binds for a name is the module parents/name as cached, or the attribute `name` of the
+   cached parent module - whatever else is listed in the same statement. *)
+Theorem C14_from_import_value : forall run (T : tree) exts c ps nm s v s',
+  from_one run T exts c ps nm s = (inl (ROk v), s') ->
+  (exists id a, v = VMod id (from_name ps nm) a /\ lookup (from_name ps nm) (cache s') = Some (id, a))
+  \/ (exists id a, lookup (from_parent ps) (cache s') = Some (id, a) /\
+                   walk (VMod id (from_parent ps) a) [nm] s' = ROk v).
+Proof. exact from_one_value. Qed.
 
 (* ------------------------------------------------------------------ own globals *)
 
@@ -118,7 +127,7 @@ Proof.
   - intros Hm Hw. exact (write_not_foreign fuel T exts main o s a who m b E Hin Hm Hw).
 Qed.
 
-(* ------------------------------------------------------------------ the unguarded statement is false *)
+(* ------------------------------------------------------------------ the former witnesses, now rejected / correct *)
 
 Definition nm_selfi : name := [115;101;108;102;105]%N.          (* "selfi" *)
 Definition nm_inner : name := [105;110;110;101;114]%N.          (* "inner" *)
@@ -128,18 +137,16 @@ Definition selfi_tree : tree :=
   [(nm_selfi, ext_risor, MBody [ASet nm_x0 5%Z; AIfRun 1 [AImport nm_selfi (Some nm_inner)]])].
 Definition selfi_main : list action := [AImport nm_selfi None; AObs (EPath [nm_selfi])].
 
-(* Without the acyclicity guard "at most once / one object per name" fails: the evaluation SUCCEEDS, the
-   body of selfi completed twice and two different module objects were handed out for the same name. *)
-Theorem C14_refuted_reentrant : exists (T : tree) main s,
-  tree_accepted T = true /\ forallb action_accepted main = true /\
-  run_main 100 T default_exts main = (OK, s) /\
-  tr_starts nm_selfi (trace s) = 2 /\ tr_dones nm_selfi (trace s) = 2 /\
-  exists id1 id2, In (nm_selfi, id1) (results s) /\ In (nm_selfi, id2) (results s) /\ id1 <> id2.
+(* The conditional self-import that used to succeed with the body run twice and two module objects is now an
+   import-cycle error: the body started once, never completed, nothing was cached, the importer was asked once. *)
+Theorem C14_cycle_rejected :
+  let r := run_main 100 selfi_tree default_exts selfi_main in
+  fst r = Err ECycle /\ tr_starts nm_selfi (trace (snd r)) = 1 /\ tr_dones nm_selfi (trace (snd r)) = 0 /\
+  cache (snd r) = [] /\ get nm_selfi (cycles (snd r)) = 1 /\
+  length (filter (fun e => match e with EvReq _ _ => true | _ => false end) (trace (snd r))) = 1.
 Proof.
-  exists selfi_tree, selfi_main, (snd (run_main 100 selfi_tree default_exts selfi_main)).
-  split; [vm_compute; reflexivity|]. split; [vm_compute; reflexivity|].
-  split; [vm_compute; reflexivity|]. split; [vm_compute; reflexivity|]. split; [vm_compute; reflexivity|].
-  exists 0, 1. vm_compute. split; [left; reflexivity|]. split; [right; left; reflexivity|discriminate].
+  cbv zeta. split; [vm_compute; reflexivity|]. split; [vm_compute; reflexivity|]. split; [vm_compute; reflexivity|].
+  split; [vm_compute; reflexivity|]. split; vm_compute; reflexivity.
 Qed.
 
 (* ------------------------------------------------------------------ non-vacuity *)
@@ -186,11 +193,11 @@ Example C14_dag_run :
   let s := snd (run_main 100 dag_tree default_exts dag_main) in
   fst (run_main 100 dag_tree default_exts dag_main) = OK /\
   tr_starts nm_a (trace s) = 1 /\ tr_starts nm_b (trace s) = 1 /\
-  tr_starts nm_bad (trace s) = 2 /\ get nm_bad (fail_nr s) = 2 /\
+  tr_starts nm_bad (trace s) = 2 /\ get nm_bad (fails s) = 2 /\
   existsb (fun e => match e with EvObs (OBool true) 0 => true | _ => false end) (trace s) = true.
 Proof. vm_compute. repeat split; reflexivity. Qed.
 
-(* ------------------------------------------------------------------ from-import binds the wrong value *)
+(* ------------------------------------------------------------------ from-import with several names *)
 
 Definition nm_pkg : name := [112;107;103]%N.
 Definition nm_pkg_b : name := [112;107;103;47;98]%N.
@@ -199,26 +206,18 @@ Definition nm_u : name := [117]%N.
 Definition nm_v : name := [118]%N.
 Definition nm_w : name := [119]%N.
 (* pkg.risor: x1 = 5      pkg/b.risor: x0 = 50
-   main: from pkg import b as w ; from pkg import (x1 as u, b as v) ; obs(w) ; obs(v) *)
+   main: from pkg import b as w ; from pkg import (x1 as u, b as v) ; obs(w == v) ; obs(u) *)
 Definition fb_tree : tree :=
   [(nm_pkg, ext_risor, MBody [ASet nm_x1 5%Z]); (nm_pkg_b, ext_risor, MBody [ASet nm_x0 50%Z])].
 Definition fb_main : list action :=
   [AFrom [nm_pkg] [(nm_b, Some nm_w)]; AFrom [nm_pkg] [(nm_x1, Some nm_u); (nm_b, Some nm_v)];
-   AObs (EPath [nm_w]); AObs (EPath [nm_v])].
-Definition fb_rank : list (name * nat) := [(nm_pkg, 0); (nm_pkg_b, 0)].
+   AObs (ESame [nm_w] [nm_v]); AObs (EPath [nm_u])].
 
-(* In an acyclic tree, with no failing body and every body run exactly once, the SAME name imported from the
-   SAME package is a module in a one-name statement and the leftover of another module's body (here 0) in a
-   several-name statement: importModule hands the value a module body left on the operand stack to the
-   importing frame, and the stores of the from-import pop it instead of the imported module. *)
-Theorem C14_refuted_from_binding : exists (T : tree) main s,
-  tree_accepted T = true /\ forallb action_accepted main = true /\ tree_ranked (rank_of fb_rank) T = true /\
-  run_main 100 T default_exts main = (OK, s) /\ fuzzy s = false /\ fail_nr s = [] /\ fail_r s = [] /\
-  existsb (fun e => match e with EvObs (OMod _ _) 0 => true | _ => false end) (trace s) = true /\
-  existsb (fun e => match e with EvObs (OInt 0) 0 => true | _ => false end) (trace s) = true.
-Proof.
-  exists fb_tree, fb_main, (snd (run_main 100 fb_tree default_exts fb_main)).
-  split; [vm_compute; reflexivity|]. split; [vm_compute; reflexivity|]. split; [vm_compute; reflexivity|].
-  split; [vm_compute; reflexivity|]. split; [vm_compute; reflexivity|]. split; [vm_compute; reflexivity|].
-  split; [vm_compute; reflexivity|]. split; vm_compute; reflexivity.
-Qed.
+(* The former witness of the wrong binding: the same name imported by a one-name and by a several-name statement
+   (during which the body of pkg.risor runs) now denotes the same module object, and the symbol has its value. *)
+Example C14_from_binding_example :
+  let r := run_main 100 fb_tree default_exts fb_main in
+  fst r = OK /\
+  existsb (fun e => match e with EvObs (OBool true) 0 => true | _ => false end) (trace (snd r)) = true /\
+  existsb (fun e => match e with EvObs (OInt 5) 0 => true | _ => false end) (trace (snd r)) = true.
+Proof. cbv zeta. split; [vm_compute; reflexivity|]. split; vm_compute; reflexivity. Qed.
